@@ -10,6 +10,7 @@ from vlib import sched, ref_study
 
 PROPERTY = "C08"
 LEVEL = "exploration"
+OPTIMIZED_SAMPLE = (10, 100)  # cases repeated under python -O (quick, thorough)
 JOBS = 16
 CASE_TIMEOUT = 300
 RULE = (
